@@ -207,7 +207,91 @@ class Interp:
                 results.append(dict(decisions=dec, cond=list(self.path_cond), value=None, events=list(self.events), raises=e))
             if len(results) + len(work) > max_paths:
                 raise Unsupported("too many paths")
-        return results
+        return self.fold_sound_memos(results) if self.fold_memos else results
+
+    fold_memos = True
+
+    def fold_sound_memos(self, results):
+        """A validated memo - `m = getattr(self, "_memo", None); if m is None or m[0] != key: m = (key, value); self._memo = m; use m[1]` -
+        is not state in the sense of the purity rules and its hit path is not a path of its own IF the remembered value is a function of the
+        key alone (every leaf of `value` is a component of `key`, a tensor that only donates its dtype / device counting as those two) and
+        every use of the stored pair is guarded by the comparison of its first component with that same key. Then the hit path returns what
+        the miss path computes: the hit paths are dropped and the store is re-labelled `memo_store`. Anything less leaves everything as
+        it is (the store is a state store, the hit path returns an unknown earlier value) and the rules report it."""
+        memos = {}
+        for r in results:
+            for e in r["events"]:
+                v = e.get("value")
+                if e["kind"] == "obj_setattr" and isinstance(e.get("obj"), Obj) and isinstance(v, tuple) and len(v) == 2 and isinstance(v[0], tuple) and isinstance(v[1], Term):
+                    memos.setdefault((id(e["obj"]), e["attr"]), []).append((e, r, v[0], v[1], Sym(f"{e['obj'].name}.{e['attr']}")))
+        if not memos:
+            return results
+        drop, relabel = set(), []
+        for (_, attr), stores_ in memos.items():
+            S = stores_[0][4]
+            keys = {st[2] for st in stores_}
+            if len(keys) != 1:
+                continue
+            K = stores_[0][2]
+            if not all(self._memo_value_is_function_of_key(st[3], K) for st in stores_):
+                continue
+            hit, ok = [], True
+            for k_, r in enumerate(results):
+                mentions = any(x_ == S for t_ in [r["value"]] + [c_ for c_, _, _ in r["cond"]] for x_ in walk(t_ if isinstance(t_, (Term, tuple, list)) else ()))
+                if not mentions:
+                    continue
+                guards = [(c_, d_) for c_, d_, _ in r["cond"] if isinstance(c_, Op) and c_.op in ("ne", "eq") and Op("getitem", (S, 0)) in c_.args or
+                          isinstance(c_, Op) and c_.op in ("ne", "eq") and Op("index", (S, 0)) in c_.args]
+                same_key = [(c_, d_) for c_, d_ in guards if any(a_ == K or (isinstance(a_, tuple) and tuple(a_) == tuple(K)) for a_ in c_.args)]
+                if not same_key:
+                    ok = False   # the stored pair is used without comparing its key with the current one
+                    break
+                c_, d_ = same_key[0]
+                if (c_.op == "ne") != bool(d_):
+                    hit.append(k_)   # keys equal: the remembered value is used
+                elif any(x_ == S for x_ in walk(r["value"] if isinstance(r["value"], (Term, tuple, list)) else ())):
+                    ok = False   # a miss that still returns something of the old pair
+                    break
+            if not ok:
+                continue
+            drop |= set(hit)
+            relabel += [st[0] for st in stores_]
+        if not relabel:
+            return results
+        for e in relabel:
+            e["kind"] = "memo_store"
+        out = []
+        for k_, r in enumerate(results):
+            if k_ in drop:
+                continue
+            # the copies of the events in the result lists are the same dict objects: re-labelled above
+            out.append(r)
+        return out
+
+    @staticmethod
+    def _memo_value_is_function_of_key(value, key):
+        comps = list(key)
+        have_dtype = {c_.args[0] for c_ in comps if isinstance(c_, Op) and c_.op == "attr_dtype"}
+        have_device = {c_.args[0] for c_ in comps if isinstance(c_, Op) and c_.op == "attr_device"}
+
+        def ok(t, donor=False):
+            if not isinstance(t, Term):
+                if isinstance(t, (tuple, list)):
+                    return all(ok(x_, donor) for x_ in t)
+                return not isinstance(t, (Obj, Closure, Partial))
+            if any(t == c_ for c_ in comps):
+                return True
+            if donor:
+                return t in have_dtype and t in have_device
+            if isinstance(t, Sym):
+                return False
+            if t.op in ("to",) and len(t.args) == 2 and isinstance(t.args[1], Term) and not t.kw:
+                return ok(t.args[0]) and ok(t.args[1], True)
+            if t.op in ("zeros_like", "ones_like", "empty_like", "full_like", "new_zeros", "new_ones", "new_tensor", "new_full", "new_empty"):
+                return ok(t.args[0], True) and all(ok(x_) for x_ in t.args[1:]) and all(ok(v_) for _, v_ in t.kw)
+            return all(ok(x_) for x_ in t.args) and all(ok(v_) for _, v_ in t.kw)
+
+        return ok(value)
 
     def ev(self, kind, **kw):
         kw["kind"] = kind
@@ -1054,6 +1138,9 @@ class Interp:
                 elif (b is not v and k in before and isinstance(b, Obj) and isinstance(v, Obj) and "namedtuple" in b.tags and "namedtuple" in v.tags and b.cls == v.cls
                       and any(isinstance(x_, Term) for x_ in list(b.attrs.values()) + list(v.attrs.values()))):
                     changed_nt.append((c, k, b))  # a named tuple of tensors re-bound in the body: carried field by field
+                elif b is not v and k in before and isinstance(v, (Closure, Partial)) and isinstance(b, (Closure, Partial, FuncInfo, BoundMethod)):
+                    # a function built from the function of the iteration before (a chain of closures): no summary of that exists here
+                    raise Unsupported(f"the function-valued variable {k} is re-bound in every iteration of a loop of unknown length")
         # restore
         for c, before in snap_cells:
             c.clear()
